@@ -12,6 +12,7 @@ package main
 import (
 	"bytes"
 	"fmt"
+	"io"
 	"os"
 
 	"gitlab.com/gomidi/midi/v2"
@@ -161,7 +162,12 @@ func writeFaultsOn(base *sp.Inst, detail func(what string) map[string]interface{
 			// the next write of the same value to a healthy destination is the reference
 			if fw.Fired > 0 && (k%7 == 0 || len(out) < 200) {
 				var again bytes.Buffer
-				n2, err2 := base.Clone().S.WriteTo(&again)
+				// the very value whose write just failed (on every other offset a fresh copy)
+				second := in
+				if k%2 == 1 {
+					second = base.Clone()
+				}
+				n2, err2 := second.S.WriteTo(&again)
 				if err2 != nil || n2 != int64(len(out)) || !bytes.Equal(again.Bytes(), out) {
 					s2 := "write-after-failed-write:" + mode
 					if ctx.SigCount(s2) < 10 {
@@ -239,6 +245,34 @@ func readFaults(data []byte, label string) {
 		// a header that does not match the chunks: what the result should be
 		// without a fault is C05's business, only the fault clause is judged here
 		perr = fmt.Errorf("track count does not match")
+	}
+	// the same offsets with other error values and with a source that reports its
+	// error once and says io.EOF afterwards
+	for _, v := range []struct {
+		name string
+		err  error
+		once bool
+	}{{"unexpected-eof-error", io.ErrUnexpectedEOF, false}, {"closed-pipe-error", io.ErrClosedPipe, false}, {"error-once-then-eof", nil, true}, {"unexpected-eof-once-then-eof", io.ErrUnexpectedEOF, true}} {
+		for k := 0; k < len(data); k++ {
+			fr := &faultio.FailReader{Data: data, At: k, Err: v.err, Once: v.once}
+			var err error
+			c := engine.Catch(func() { _, err = smf.ReadFrom(fr) })
+			ctx.Eval()
+			sig, what := "", ""
+			switch {
+			case c.Panicked:
+				sig, what = c.Sig+":read-fault:"+v.name, "ReadFrom panicked: "+c.Value
+			case fr.Returned > 0 && err == nil:
+				sig = "read-nil:" + v.name + ":fault-in-" + region(data, k)
+				what = fmt.Sprintf("source failed at offset %d of %d (%s) but ReadFrom returned a value and no error", k, len(data), v.name)
+			}
+			if fr.Returned > 0 {
+				ctx.NontrivialN(1)
+			}
+			if sig != "" && ctx.SigCount(sig) < 10 {
+				ctx.Violation(sig, map[string]interface{}{"kind": "read-fault", "file": engine.Hex(data), "fault_at": k, "family": label, "variant": v.name, "what": what})
+			}
+		}
 	}
 	for k := 0; k <= len(data); k++ {
 		fr := &faultio.FailReader{Data: data, At: k}
